@@ -160,6 +160,18 @@ def run(ctx):
         w = list(vin[0][3]); w[-1] = w[-1] + b"\x00" * extra
         tx2 = (ver, [(vin[0][0], vin[0][1], vin[0][2], w, vin[0][4])], vout, lock)
         sl.append(S.spend_line(tx2, s.txin, R.STD)); meta.append(("control-size", s))
+    # leaves that Bitcoin never executes (OP_SUCCESSx), with the flag that discourages them on and off: the commitment is checked all the same
+    NOSUCC = R.STD & ~(1 << R.FLAG_BITS["DISCOURAGE_OP_SUCCESS"])
+    for leaf in (bytes([0x50]), bytes([0x51, 0x7e]), bytes([0x62, 0x51]), bytes([0x00, 0x63, 0x89, 0x68, 0x51])):
+        for m in (0, 1, 3):
+            for fl in (R.STD, NOSUCC, NOSUCC & ~(1 << R.FLAG_BITS["DISCOURAGE_UPGRADABLE_TAPROOT_VERSION"])):
+                s = S.build(rnd, "p2tr-script", {"path_len": m, "leaf_script": leaf, "leaf_args": [], "annex": False})
+                sl.append(S.spend_line(s.tx, s.txin, fl)); meta.append(("opsuccess-leaf", s))
+                ver, vin, vout, lock = s.tx
+                w = list(vin[0][3]); ctrl = w[-1]
+                for w2 in ([*w[:-1], bytes([ctrl[0] ^ 1]) + ctrl[1:]], [*w[:-1], ctrl[:5] + bytes([ctrl[5] ^ 4]) + ctrl[6:]], [*w[:-2], w[-2] + b"\x61", ctrl]):
+                    tx3 = (ver, [(vin[0][0], vin[0][1], vin[0][2], w2, vin[0][4])], vout, lock)
+                    sl.append(S.spend_line(tx3, s.txin, fl)); meta.append(("bad-commitment", s))
     # SPENDR: as SPEND, and when a step fails the step is asked for twice more (a failed check stays failed)
     sl = [re.sub(r"^SPEND ", "SPENDR ", l) for l in sl]
     impl = ctx.harness_sharded(sl)
